@@ -110,7 +110,7 @@ Definition sub_label (lb : label) : option nat :=
   match lb with
   | LWrite _ _ | LFeed _ | LUnlock _ => None
   | LReg s | LRegDone s | LWalkBegin s | LVisit s _ | LWalkEnd s | LSync s
-  | LDeq s | LRead s | LSent s | LTimeout s => Some s
+  | LDeq s | LRead s | LSent s | LTimeout s | LCancel s | LUnreg s => Some s
   end.
 
 Lemma with_sub_other st s f st' s' :
@@ -175,6 +175,40 @@ Proof.
     destruct it; cbn; rewrite ?A, ?B; reflexivity.
 Qed.
 
+(** A subscription that ends -- the client goes away ([LCancel]), its send
+    times out ([LTimeout]) -- and is then removed from the match trie path by
+    path ([LUnreg]) leaves the registrations of every OTHER subscriber exactly
+    as they were, and with them what every later announcement delivers to
+    them: whichever of the paths are siblings, deeper or shallower. *)
+Theorem others_registered_unaffected h st lb s st' :
+  sub_label lb = Some s -> step h st lb = Some st' ->
+  forall s' sb', s' <> s -> nth_error (st_subs st') s' = Some sb' ->
+    nth_error (st_subs st) s' = Some sb' /\
+    (forall pat, mult sb' pat = match nth_error (st_subs st) s' with Some sb0 => mult sb0 pat | None => O end) /\
+    (forall it, deliver st' it sb' = deliver st it sb').
+Proof.
+  intros Hl Hs s' sb' Hne Hn. destruct (others_untouched _ _ _ _ _ Hl Hs) as (A & B & C & D & E).
+  rewrite (A _ Hne) in Hn. split; [exact Hn|]. split.
+  - intros pat. rewrite Hn. reflexivity.
+  - intros it. unfold deliver, item_pat, leaf_path. rewrite B, C. reflexivity.
+Qed.
+
+Lemma In_firstn {A} k (l : list A) x : In x (firstn k l) -> In x l.
+Proof. revert k; induction l as [|a l IH]; intros [|k]; cbn; auto; try tauto. intros [H|H]; eauto. Qed.
+
+(** the paths of an ended subscription leave the trie one at a time *)
+Theorem unreg_shrinks h st s st' sb :
+  nth_error (st_subs st) s = Some sb -> step h st (LUnreg s) = Some st' ->
+  exists sb', nth_error (st_subs st') s = Some sb' /\ s_end sb' = true /\
+              (forall q, In q (regq sb') -> In q (regq sb)).
+Proof.
+  unfold step. cbn. intros Hsb H. apply with_sub_inv in H as (sb0 & sb' & Hsb0 & Hf & ->). rewrite Hsb in Hsb0. inversion Hsb0; subst sb0.
+  destruct (s_end sb) eqn:He; [|discriminate]. exists sb'. cbn. rewrite nth_error_upd_nth_eq, Hsb. split; [reflexivity|].
+  unfold regq. destruct (s_pc sb) as [[|k]| | |] eqn:Hpc; try discriminate.
+  - inversion Hf; subst sb'. cbn. split; auto. intros q Hq. apply firstn_S_In. exact Hq.
+  - destruct (List.length (s_qs sb)) as [|k] eqn:Hn; [discriminate|]. inversion Hf; subst sb'. cbn. split; auto.
+    intros q Hq. eapply In_firstn; eauto.
+Qed.
 (** ** The backlog of a subscriber *)
 
 Lemma NoDup_qitems_insert it q : NoDup (qitems q) -> NoDup (qitems (q_insert it q)).
@@ -199,7 +233,7 @@ Proof.
   { intros s f H Hf sbx Hin. apply with_sub_inv in H as (sb & sb' & Hsb & Hfs & ->). cbn in Hin.
     apply In_upd_nth in Hin as [Hin|(x & Hx & ->)]; auto. rewrite Hsb in Hx. inversion Hx; subst.
     eapply Hf; eauto. apply Q. eapply nth_error_In; eauto. }
-  destruct lb as [w o|w|s|s|s|s p0|s|s|s|s|s|s|w]; unfold step in Hs; cbn in Hs.
+  destruct lb as [w o|w|s|s|s|s p0|s|s|s|s|s|s|w|s|s]; unfold step in Hs; cbn in Hs.
   - destruct (nth_error (st_feeds st) w) as [[|]|]; try discriminate.
     destruct (may_lock st w (wop_target o)); [|discriminate].
     destruct (write h st w o) as [[st1 r]|] eqn:Hw; [|discriminate]. cbn in Hs. inversion Hs; subst.
@@ -234,6 +268,10 @@ Proof.
     destruct (s_out sb) as [[]|]; try discriminate; intros [= <-]; auto.
   - destruct (nth_error (st_feeds st) w) as [[|]|]; try discriminate.
     destruct (lock_of st w); [|discriminate]. inversion Hs; subst. exact Q.
+  - eapply SUB; eauto. intros sb sb'; cbn beta. destruct (_ && _); [|discriminate]. intros [= <-]; auto.
+  - eapply SUB; eauto. intros sb sb'; cbn beta. destruct (s_end sb); [|discriminate].
+    destruct (s_pc sb) as [[|k]| | |]; try discriminate; [intros [= <-]; auto|].
+    destruct (List.length (s_qs sb)); [discriminate|]. intros [= <-]; auto.
 Qed.
 
 (** In every reachable state (ANY hypotheses, any stall pattern) a queue holds
@@ -413,7 +451,7 @@ Proof.
     - rewrite nth_error_upd_nth_eq, Hx. cbn. rewrite Hsb in Hx. inversion Hx; subst x.
       destruct (Hf _ _ Hfx He). eauto.
     - rewrite nth_error_upd_nth_neq by auto. eauto. }
-  destruct lb as [w o|w|s0|s0|s0|s0 p0|s0|s0|s0|s0|s0|s0|w]; unfold step in Hs; cbn in Hs.
+  destruct lb as [w o|w|s0|s0|s0|s0 p0|s0|s0|s0|s0|s0|s0|w|s0|s0]; unfold step in Hs; cbn in Hs.
   - destruct (nth_error (st_feeds st) w) as [[|]|]; try discriminate.
     destruct (may_lock st w (wop_target o)); [|discriminate].
     destruct (write h st w o) as [[st1 r]|] eqn:Hw; [|discriminate]. cbn in Hs. inversion Hs; subst. cbn.
@@ -438,6 +476,10 @@ Proof.
   - eapply SUB; eauto. intros x y; cbn beta. intros H E. rewrite E in H. discriminate.
   - destruct (nth_error (st_feeds st) w) as [[|]|]; try discriminate.
     destruct (lock_of st w); [|discriminate]. inversion Hs; subst. cbn. eauto.
+  - eapply SUB; eauto. intros x y; cbn beta. intros H E. rewrite E, andb_false_r in H. discriminate.
+  - eapply SUB; eauto. intros x y; cbn beta. destruct (s_end x) eqn:Ex; [|discriminate].
+    destruct (s_pc x) as [[|k]| | |]; try discriminate; [intros [= <-] _; cbn; auto|].
+    destruct (List.length (s_qs x)); [discriminate|]. intros [= <-] _; cbn; auto.
 Qed.
 
 (** ** A scenario: one subscriber stalled for ever, one live; the writer and
